@@ -27,6 +27,25 @@ def cq(x):
 # ---------------------------------------------------------------------------
 # operator expressions (surface syntax = overload set)
 # ---------------------------------------------------------------------------
+BIND = None     # list of (name, C++ type, initialiser, clobber value) while an expression is printed in binding mode
+
+
+def bound_exprs(exprs, on):
+    """C++ for building the operators of `exprs`: returns (declarations, [operator variable names], clobber statements).
+    on=False: the operators are built from temporaries inside the declaration of the operator variables."""
+    global BIND
+    BIND = [] if on else None
+    try:
+        texts = [e.cpp() for e in exprs]
+        binds = BIND or []
+    finally:
+        BIND = None
+    decl = " ".join(f"{ty} {n} = {init};" for n, ty, init, _ in binds)
+    decl += " " + " ".join(f"auto op{i} = {t};" for i, t in enumerate(texts))
+    clob = " ".join(f"{n} = {c};" for n, _, _, c in binds)
+    return decl.strip(), [f"op{i}" for i in range(len(texts))], clob
+
+
 class Sc:
     """scalar inside an expression: kind 'F' (the spline's scalar type) or an integer of C++ type int ('I'),
     unsigned ('U'), size_t ('Z'), long ('L') or short ('H'); the model sees every integer kind as ScI"""
@@ -41,12 +60,23 @@ class Sc:
     def text(self):
         return f"F {fr(self.val)}" if self.kind == 'F' else f"{self.kind} {self.val}"
 
-    def cpp(self):
+    CTYPE = {'F': 'S', 'I': 'int', 'U': 'unsigned', 'Z': 'size_t', 'L': 'long', 'H': 'short'}
+
+    def literal(self):
         if self.kind == 'F':
             return cq(self.val)
         if self.kind != 'I':
             return "(" + self.INT_KINDS[self.kind].format(self.val) + ")"
         return f"({self.val})" if self.val < 0 else str(self.val)
+
+    def cpp(self):
+        if BIND is not None:
+            # the scalar is a NAMED variable that is overwritten after the operator has been built and before it is
+            # used (see bound_exprs): an operator that keeps a reference to its scalar instead of a copy shows
+            name = f"sc{len(BIND)}"
+            BIND.append((name, self.CTYPE[self.kind], self.literal(), cq(Fraction(12345, 7)) if self.kind == 'F' else "77"))
+            return name
+        return self.literal()
 
     def is_zero(self):
         return self.val == 0
@@ -202,6 +232,17 @@ class Case:
 
     def grid_eq(self, a, b):
         self._emit(f"GridEq {a} {b}", f"out.b(req(s{a}) == req(s{b}));")
+
+    def grid_eq_fresh(self, a, b):
+        """g == h where g is a FRESH grid object with the points of slot a and no other owner of its data; a reference
+        and an iterator into g taken before the comparison are used after it (a read-only comparison must not
+        invalidate them).  The model sees GridEq a b."""
+        self._emit(f"GridEq {a} {b}",
+                   f"auto &ga = req(s{a}); std::vector<S> pts; for (size_t i = 0; i < ga.size(); i++) pts.push_back(ga[i]); "
+                   f"const Grid<S> g(std::move(pts)); bool ok = true; "
+                   f"if (!g.empty()) {{ const S &first = g.front(); auto it = g.begin(); const auto data = g.getData().get(); "
+                   f"const bool e = (g == req(s{b})); ok = (first == g[0]) && (*it == g[0]) && (g.getData().get() == data); "
+                   f"out.b(e && ok); }} else {{ out.b(g == req(s{b})); }}")
 
     def grid_size(self, a):
         self._emit(f"GridSize {a}", f"out.n(req(s{a}).size());")
@@ -421,8 +462,9 @@ class Case:
     def apply(self, d, e, a):
         o = e.out_ord(self.order(a), self.order)
         self._decl(d, ('spl', o))
+        decl, (op,), clob = bound_exprs([e], len(self.lines) % 2 == 0)
         self._emit(f"Apply {d} {a} {e.text()}",
-                   f"auto r = {e.cpp()} * req(s{a}); {self._set(d, 'std::move(r)')} out.tag(\"VOID\");")
+                   f"{decl} {clob} auto r = {op} * req(s{a}); {self._set(d, 'std::move(r)')} out.tag(\"VOID\");")
 
     def transform(self, e, coeffs, g, k):
         n = len(coeffs)
@@ -438,15 +480,21 @@ class Case:
         elif e1.head == 'Id' and e2.head == 'Id':
             ctor = "BilinearForm bf{};"
         elif e1.head == 'Id' and alt:
-            ctor = f"BilinearForm bf({e2.cpp()});"
+            decl, (o2,), clob = bound_exprs([e2], len(self.lines) % 4 == 0)
+            ctor = f"{decl} BilinearForm bf({o2}); {clob}"
         else:
-            ctor = f"BilinearForm bf({e1.cpp()}, {e2.cpp()});"
+            decl, (o1, o2), clob = bound_exprs([e1, e2], len(self.lines) % 4 == 1)
+            ctor = f"{decl} BilinearForm bf({o1}, {o2}); {clob}"
         call = f"bf(req(s{a}), req(s{b}))" if alt else f"bf.evaluate(req(s{a}), req(s{b}))"
         self._emit(f"Bilin {a} {b} {e1.text()} {e2.text()}", f"{ctor} out.f({call});")
 
     def lin(self, e, a):
         alt = len(self.lines) % 2 == 0
-        ctor = "LinearForm lf{};" if (e.head == 'Id' and alt) else f"LinearForm lf({e.cpp()});"
+        if e.head == 'Id' and alt:
+            ctor = "LinearForm lf{};"
+        else:
+            decl, (o1,), clob = bound_exprs([e], len(self.lines) % 4 >= 2)
+            ctor = f"{decl} LinearForm lf({o1}); {clob}"
         call = f"lf(req(s{a}))" if alt else f"lf.evaluate(req(s{a}))"
         self._emit(f"Lin {a} {e.text()}", f"{ctor} out.f({call});")
 
